@@ -6,3 +6,11 @@ for p in $(cat tools/ready.txt); do
   ./check $p $TIER > work/run_all_$p.log 2>&1; rc=$?
   echo "$p exit=$rc $(grep -c '^KNOWN-FINDING' work/run_all_$p.log) known; $(grep 'done in' work/run_all_$p.log | sed 's/\[check\] //')"
 done
+# keep the snapshot of the generated definitions (the check's fall-back when the translator cannot read a rewritten
+# source) in step with the clean tree: only refreshed when /repo has no uncommitted change and the translator reads everything
+if [ -z "$(git -C /repo status --porcelain --untracked-files=no)" ] && ./harness/target/debug/rs2lean /repo lean/SafeNet/Gen >/dev/null 2>&1; then
+  mkdir -p lean/GenSnapshot && cp lean/SafeNet/Gen/*.lean lean/GenSnapshot/
+  echo "GenSnapshot refreshed"
+else
+  echo "GenSnapshot NOT refreshed (repo dirty or translator failed)"
+fi
